@@ -421,14 +421,15 @@ func (vc *VC) smtLightPath(i, k int) string {
 					sb.WriteString(ln + "\n")
 				}
 				continue
-			case strings.HasPrefix(t, "(define-fun R") && strings.Contains(t, " () Bool (and R") && (strings.Contains(t, "(forall ") || strings.Contains(t, "(exists ")):
-				// (define-fun R!k () Bool (and R!prev A)) with quantified A  ==>  R!k := R!prev
+			case strings.HasPrefix(t, "(assert (=> R") && (strings.Contains(t, "(forall ") || strings.Contains(t, "(exists ")):
+				// (assert (=> R!k (and R!prev A))) with quantified A  ==>  R!k => R!prev
 				f := strings.Fields(t)
-				if len(f) >= 6 {
-					prev := strings.TrimSuffix(f[5], ")")
-					sb.WriteString(fmt.Sprintf("(define-fun %s () Bool %s)\n", f[1], prev))
-					continue
+				if len(f) >= 5 && f[3] == "(and" {
+					sb.WriteString(fmt.Sprintf("(assert (=> %s %s))\n", f[2], strings.TrimRight(f[4], ")")))
 				}
+				continue
+			case strings.HasPrefix(t, "(assert (= ") && (strings.Contains(t, "(forall ") || strings.Contains(t, "(exists ")):
+				continue // a defined Boolean with a quantified body: left unconstrained
 			}
 			sb.WriteString(ln + "\n")
 		}
